@@ -27,12 +27,20 @@
 (*   AddMovesOnlyToNew     after Add(n) a key either keeps its owner or is    *)
 (*                         owned by n                                         *)
 (*   RemoveMovesOnlyOwned  after Del(n) only the keys n owned change owner    *)
+(*   UpdateMovesOnlyBetween after Upd(slot: n -> n') (the address of one       *)
+(*                         destination is changed: another instance on the     *)
+(*                         same host, another host, or only the port, n' = n)  *)
+(*                         only keys n owned or keys that land on n' change    *)
+(*                         owner; a port-only change moves nothing             *)
 (* Dev names a deviation; every deviation must violate one of the above.      *)
+(* stale_ring_on_same_host: after an address update the ring is re-derived     *)
+(* only when the host part changed (the ring also depends on the instance).    *)
 EXTENDS HashRingOps, TLC
 
 CONSTANTS Shape,      \* which node universe (below)
           R, P,       \* replicas per node, number of positions (every position is also a key)
           Dev         \* "none" | "bisect_right" | "sort_pos_only" | "stale_ring" | "no_wrap" | "mod_n"
+                      \* | "stale_ring_on_same_host"
 
 (* node universes: same host with and without instance, a host that is a prefix of another *)
 Nd(h, i) == [host |-> h, inst |-> i]
@@ -48,7 +56,7 @@ VARIABLES nt,      \* node table (HashRingOps): NodeDefs + positions [1..R -> 0.
           dests,   \* the route's destination list (sequence of node ids, no duplicates)
           ring,    \* B: the ring the route dispatches with
           prev,    \* owner of each key position 0..P-1 before the last change (<<>> initially)
-          last     \* <<"init">> | <<"add", n>> | <<"del", n>>
+          last     \* <<"init">> | <<"add", n>> | <<"del", n>> | <<"upd", n, n'>>
 vars == <<nt, dests, ring, prev, last>>
 NT == nt
 
@@ -99,7 +107,20 @@ Del(i) ==
     /\ last' = <<"del", dests[i]>>
     /\ UNCHANGED nt
 
-Next == (\E n \in NodeIds : Add(n)) \/ (\E i \in DOMAIN dests : Del(i))
+(* the address of the destination in slot i is changed so that it now is node n: another      *)
+(* instance on the same host, another host, or (n = dests[i]) only the port -- the port is no  *)
+(* part of a node.  The destination keeps its slot.                                            *)
+Upd(i, n) ==
+    /\ n \notin (Members \ {dests[i]})
+    /\ dests' = [dests EXCEPT ![i] = n]
+    /\ ring' = IF Dev = "stale_ring_on_same_host" /\ nt[n].host = nt[dests[i]].host THEN ring ELSE BuildRing(dests')
+    /\ prev' = Owners(Members)
+    /\ last' = <<"upd", dests[i], n>>
+    /\ UNCHANGED nt
+
+Next == \/ \E n \in NodeIds : Add(n)
+        \/ \E i \in DOMAIN dests : Del(i)
+        \/ \E i \in DOMAIN dests : \E n \in NodeIds : Upd(i, n)
 Spec == Init /\ [][Next]_vars
 
 \* ---------------------------------------------------------------- properties
@@ -130,11 +151,18 @@ RemoveMovesOnlyOwned ==
     last[1] = "del" =>
         \A k \in Keys : LET o == OwnerA(Members, k) IN o # prev[k] => prev[k] = last[2]
 
-(* the same two statements for what the route (B) does *)
+(* an address update n -> n' is "remove n, add n' in its slot": a key changes owner only if n  *)
+(* owned it or if it lands on n'; if only the port changed (n' = n) nothing moves               *)
+MoveAllowed(was, now) == MoveAllowedBy(last, was, now)
+
+UpdateMovesOnlyBetween ==
+    last[1] = "upd" =>
+        \A k \in Keys : LET o == OwnerA(Members, k) IN o # prev[k] => MoveAllowed(prev[k], o)
+
+(* the same statements for what the route (B) does *)
 MovesB ==
     (last[1] # "init" /\ prev # <<>>) =>
-        \A k \in Keys : LET o == OwnerB(ring, k)
-                        IN  o # prev[k] => IF last[1] = "add" THEN o = last[2] ELSE prev[k] = last[2]
+        \A k \in Keys : LET o == OwnerB(ring, k) IN o # prev[k] => MoveAllowed(prev[k], o)
 
-C15 == AgreesWithCarbon /\ OrderIndependent /\ ExactlyOne /\ AddMovesOnlyToNew /\ RemoveMovesOnlyOwned
+C15 == AgreesWithCarbon /\ OrderIndependent /\ ExactlyOne /\ AddMovesOnlyToNew /\ RemoveMovesOnlyOwned /\ UpdateMovesOnlyBetween
 =============================================================================
